@@ -63,7 +63,8 @@ def run(tier):
         raise vlib.MachineryError('no accepted multi-fragment library available for the binding self-test')
     c.assumptions += ['libraries are fed to MoleculeIterator as an iterable of (R1, R2) tuples in the order the mate-pair '
                       'iterator releases a coordinate-sorted BAM (sorted by the start of the later mate)',
-                      'the second tagging round re-uses the tagged pysam records in the same order (no BAM round trip)']
+                      'the second tagging round re-uses the tagged pysam records in the same order; a subset (hd 0, no cap, NLA/CHiC) '
+                      'is written to a coordinate-sorted BAM file and re-read through pysam + the MatePairIterator']
     keys = set((e['kind'], e['hd'], e['radius'] > 0, e['cap'], e['pooling'], len(e['frags']), len(e['rounds'][0])) for e in events)
     return c.finish(rule='directed libraries (every input duplicate-flag vector, UMI chains, cap, same coordinates on two contigs, '
                          'radius boundaries) + random truth-simulated libraries (1..8 cells, sites on both strands, UMIs at '
